@@ -49,6 +49,26 @@ type FibStrategy interface {
 // FibStrategy is a table containing FIB and Strategy entries for given prefixes.
 var FibStrategyTable FibStrategy
 
+// copyNextHops returns a deep copy of a nexthop list, so that the result can be
+// read, sorted or retained without holding the table lock.
+func copyNextHops(nexthops []*FibNextHopEntry) []*FibNextHopEntry {
+	ret := make([]*FibNextHopEntry, len(nexthops))
+	for i, nh := range nexthops {
+		ret[i] = &FibNextHopEntry{Nexthop: nh.Nexthop, Cost: nh.Cost}
+	}
+	return ret
+}
+
+// snapshot returns a copy of the entry that shares no mutable state with the table.
+func (e *baseFibStrategyEntry) snapshot() *baseFibStrategyEntry {
+	return &baseFibStrategyEntry{
+		component: e.component,
+		name:      e.name,
+		nexthops:  copyNextHops(e.nexthops),
+		strategy:  e.strategy,
+	}
+}
+
 // Name returns the name associated with the baseFibStrategyEntry.
 func (e *baseFibStrategyEntry) Name() enc.Name {
 	return e.name
